@@ -12,15 +12,40 @@ import OpusProps.C10
 namespace OpusProps.EndToEndMs
 open Opus Opus.Framing Opus.DecSkel Opus.LayoutSpec
 
-/-- **ms_encode_decode_duration.**  Whatever the multistream encoder (`n ≥ 1` streams at API rate `fs`, frame size
-    `fsz > 0`, any CBR / VBR / bitrate setting, any per-stream encoder states, any inner SILK / CELT / analysis oracle
-    answers within the encoder skeleton's contracts, any frame payloads) returns as a packet `out`, the multistream
-    decoder with `n` streams at the same rate — per-stream decoder states satisfying the decoder invariant, any channel
-    layout / mapping, any DSP oracle behaviour within the decoder contracts — given that packet with `decode_fec = 0` and
-    a buffer of `frame_size ≥ fsz` samples per channel, returns exactly `fsz` (never an error), and every stream decoder
-    reports `fsz` as its last packet duration.  `BytesOk out` (every element of the packet is a byte) is an hypothesis:
-    C10's encoder model does not constrain the payload bytes; `Opus.DecSkel.msSerialize_bytesOk` gives it from
-    `out = msSerialize ps` when the frame and padding bytes are bytes. -/
+/-- **ms_encode_decode_duration_contract.**  The composition for ANY per-stream encoder within C10's contract
+    (`MsEncode.EncContract`: a success is a valid standard-framing packet of the common `frame_size`, at most `curr_max`
+    bytes, padding without extensions; `EncTotal`: no fault): whatever packet `out` the multistream encoder returns, the
+    multistream decoder with `n` streams at the same rate — decoder invariant, any layout, any DSP oracle behaviour within
+    the decoder contracts — given `out` with `decode_fec = 0` and room for `frame_size ≥ fsz` samples per channel returns
+    exactly `fsz` and every stream reports `fsz` as its last packet duration. -/
+theorem ms_encode_decode_duration_contract (n : Nat) (hn : 1 ≤ n) (fs : Nat) (hfs : Rate fs) (fsz : Nat) (hpos : 0 < fsz)
+    (vbr : Bool) (bitrate : Option Int) (maxData : Int) (enc : Nat → Int → Res Bytes)
+    (hc : MsEncode.EncContract fs fsz enc) (ht : MsEncode.EncTotal enc) (out : Bytes)
+    (henc : MsEncode.encodeNative n fs fsz vbr bitrate maxData enc = .ok out) (hbytes : BytesOk out)
+    (os : Nat → Oracle) (hos : ∀ s, OracleOk (os s)) (l : Layout.ChannelLayout) (hl : l.nbStreams = n)
+    (dsts : List DecState) (hdsts : ∀ st ∈ dsts, DecInv st ∧ st.Fs = (fs : Int)) (hdn : dsts.length = n)
+    (frame_size : Int) (hroom : (fsz : Int) ≤ frame_size) (sc : Bool) :
+    (msDecodeFull os l fs dsts out out.length frame_size 0 sc).ret = .ret (fsz : Int) ∧
+    (msDecodeFull os l fs dsts out out.length frame_size 0 sc).sts.length = n ∧
+    ∀ st ∈ (msDecodeFull os l fs dsts out out.length frame_size 0 sc).sts, st.last_packet_duration = (fsz : Int) := by
+  obtain ⟨ps, hlen, hval, _, hser, _, _, hv⟩ :=
+    (OpusProps.C10.ms_encode_packet_structure n hn fs fsz hfs vbr bitrate maxData enc hc ht).1 out henc
+  have hFs : FsOk (fs : Int) := by unfold Rate at hfs; unfold FsOk; omega
+  have hne : ps ≠ [] := by intro h; rw [h] at hlen; simp at hlen; omega
+  have hge := Layout.msSerialize_length_ge ps hne hval
+  rw [← hser, hlen] at hge
+  have hlenpos : (0 : Int) < (out.length : Int) := by omega
+  have h := msDecodeFull_duration_spec hos l (by omega) (fs : Int) hFs dsts hdsts (by omega) out hbytes (out.length : Int) frame_size
+    ⟨hlenpos, Int.le_refl _⟩ sc fsz
+    (by simp only [Int.toNat_natCast, List.take_length]; rw [hl]; exact hv) ⟨hpos, hroom⟩
+  rw [hl] at h
+  exact h
+
+/-- **ms_encode_decode_duration.**  …with the single-stream encoder skeleton of C02/C05 in every stream (C10's
+    `ms_encode_packet_structure_skel`): any per-stream encoder states at rate `fs`, any inner SILK / CELT / analysis oracle
+    answers within the skeleton's contracts (`SkelOk`), any frame payloads.  `BytesOk out` (every element of the packet is a
+    byte) is an hypothesis: C10's encoder model does not constrain the payload bytes; `Opus.DecSkel.msSerialize_bytesOk`
+    gives it from `out = msSerialize ps` when the frame and padding bytes are bytes. -/
 theorem ms_encode_decode_duration (n : Nat) (hn : 1 ≤ n) (fs : Nat) (hfs : Rate fs) (fsz : Int) (hpos : 0 < fsz)
     (vbr : Bool) (bitrate : Option Int) (maxData : Int)
     (ests : Nat → EncSkel.St) (hfsAll : ∀ s, (ests s).fs = (fs : Int)) (fuzz : Bool)
@@ -34,18 +59,70 @@ theorem ms_encode_decode_duration (n : Nat) (hn : 1 ≤ n) (fs : Nat) (hfs : Rat
     (msDecodeFull os l fs dsts out out.length frame_size 0 sc).ret = .ret fsz ∧
     (msDecodeFull os l fs dsts out out.length frame_size 0 sc).sts.length = n ∧
     ∀ st ∈ (msDecodeFull os l fs dsts out out.length frame_size 0 sc).sts, st.last_packet_duration = fsz := by
-  obtain ⟨ps, hlen, hval, _, hser, _, _, hv⟩ :=
-    (OpusProps.C10.ms_encode_packet_structure_skel n hn fs hfs fsz vbr bitrate maxData ests hfsAll fuzz ors frs hok).1 out henc
-  have hFs : FsOk (fs : Int) := by unfold Rate at hfs; unfold FsOk; omega
-  have hne : ps ≠ [] := by intro h; rw [h] at hlen; simp at hlen; omega
-  have hge := Layout.msSerialize_length_ge ps hne hval
-  rw [← hser, hlen] at hge
   have hk : (fsz.toNat : Int) = fsz := by omega
-  have hlenpos : (0 : Int) < (out.length : Int) := by omega
-  have h := msDecodeFull_duration_spec hos l (by omega) (fs : Int) hFs dsts hdsts (by omega) out hbytes (out.length : Int) frame_size
-    ⟨hlenpos, Int.le_refl _⟩ sc fsz.toNat
-    (by simp only [Int.toNat_natCast, List.take_length]; rw [hl]; exact hv) ⟨by omega, by omega⟩
-  rw [hk, hl] at h
+  have h := ms_encode_decode_duration_contract n hn fs hfs fsz.toNat (by omega) vbr bitrate maxData _
+    (MsEncode.skelEnc_contract ests fuzz fsz ors frs fs hfsAll hok) (MsEncode.skelEnc_total ests fuzz fsz ors frs) out henc hbytes
+    os hos l hl dsts hdsts hdn frame_size (by omega) sc
+  rw [hk] at h
   exact h
+
+/-- Non-vacuity of the composition: two streams at 48 kHz, a per-stream encoder that emits the 20 ms CELT packet
+    `F8 07 07` whenever it has room (C10's example encoder) meets `EncContract 48000 960` and `EncTotal`; VBR, 100 bytes;
+    the decoder side is instantiated with freshly initialised stereo + mono stream decoders and three output channels.
+    All hypotheses of `ms_encode_decode_duration_contract` are discharged except the equation
+    `encodeNative … = .ok out` itself: C10's executable model of the multistream encoder (repacketizer with arrays) does not
+    reduce in the kernel, `#eval` gives `out = F8 02 07 07 F8 07 07` (and C10's `msenc` correspondence suite runs the model
+    on such encoders); the second example decodes exactly that byte string.  The skeleton version additionally needs
+    `SkelOk`, which quantifies over every `curr_max`; C10 instantiates the skeleton for one budget
+    (`OpusProps.C10.exSkelOr`). -/
+example (out : Bytes)
+    (henc : MsEncode.encodeNative 2 48000 960 true none 100
+      (fun _ cm => if 3 ≤ cm then .ok (Opus.FramingSpec.serialize false ⟨0xF8, [[7, 7]], false, none⟩) else .err .bufferTooSmall) = .ok out)
+    (hbytes : BytesOk out) :
+    ∃ st1 st2, init 48000 2 = some st1 ∧ init 48000 1 = some st2 ∧
+      (msDecodeFull (fun _ => exOracle) ⟨3, 2, 1, [0, 1, 2]⟩ 48000 [st1, st2] out out.length 960 0 false).ret = .ret 960 := by
+  have hv : Opus.FramingSpec.Valid ⟨0xF8, [[7, 7]], false, none⟩ :=
+    { toc_byte := by decide
+      frame_max := by intro f hf; simp only [List.mem_singleton] at hf; subst hf; decide
+      code0 := fun _ => ⟨rfl, rfl, rfl⟩
+      code1 := fun h => absurd h (by decide)
+      code2 := fun h => absurd h (by decide)
+      code3 := fun h => absurd h (by decide)
+      pad_ok := fun pd h => by cases h }
+  have hc : MsEncode.EncContract 48000 960
+      (fun _ cm => if 3 ≤ cm then .ok (Opus.FramingSpec.serialize false ⟨0xF8, [[7, 7]], false, none⟩) else .err .bufferTooSmall) := by
+    intro s cm pk h
+    dsimp only at h
+    split at h
+    · cases h
+      exact ⟨_, hv, RepackProofs.count_nil 1 (by decide), rfl, by decide,
+        by simpa [Opus.FramingSpec.serialize, Opus.FramingSpec.header, Opus.FramingSpec.lenFields, Opus.FramingSpec.Packet.code,
+          Opus.FramingSpec.Packet.lens, Opus.FramingSpec.padBytes] using (by assumption : 3 ≤ cm)⟩
+    · cases h
+  have ht : MsEncode.EncTotal
+      (fun _ cm => if 3 ≤ cm then .ok (Opus.FramingSpec.serialize false ⟨0xF8, [[7, 7]], false, none⟩) else .err .bufferTooSmall) := by
+    intro s cm; constructor <;> intro h <;> dsimp only at h <;> split at h <;> cases h
+  refine ⟨_, _, rfl, rfl, ?_⟩
+  have h := ms_encode_decode_duration_contract 2 (by decide) 48000 (by unfold Rate; decide) 960 (by decide) true none 100 _ hc ht _ henc
+    hbytes (fun _ => exOracle) (fun _ => exOracle_ok) ⟨3, 2, 1, [0, 1, 2]⟩ rfl [_, _]
+    (fun x hx => by
+      simp only [List.mem_cons, List.mem_nil_iff, or_false] at hx
+      rcases hx with rfl | rfl
+      · exact ⟨init_inv (fs := 48000) (ch := 2) rfl, rfl⟩
+      · exact ⟨init_inv (fs := 48000) (ch := 1) rfl, rfl⟩) rfl 960 (by decide) false
+  exact h.1
+
+/-- …and the packet that encoder produces, `F8 02 07 07 | F8 07 07`, validates to 960 samples and decodes to 960. -/
+example : Layout.msPacketValidate [0xF8, 2, 7, 7, 0xF8, 7, 7] 2 48000 = .ok 960 ∧
+    ∃ st1 st2, init 48000 2 = some st1 ∧ init 48000 1 = some st2 ∧
+      (msDecodeFull (fun _ => exOracle) ⟨3, 2, 1, [0, 1, 2]⟩ 48000 [st1, st2] [0xF8, 2, 7, 7, 0xF8, 7, 7] 7 960 0 false).ret = .ret 960 := by
+  refine ⟨by decide +kernel, _, _, rfl, rfl, ?_⟩
+  exact (msDecodeFull_duration_spec (fun _ => exOracle_ok) ⟨3, 2, 1, [0, 1, 2]⟩ (by decide) 48000 (by decide) [_, _]
+    (fun x hx => by
+      simp only [List.mem_cons, List.mem_nil_iff, or_false] at hx
+      rcases hx with rfl | rfl
+      · exact ⟨init_inv (fs := 48000) (ch := 2) rfl, rfl⟩
+      · exact ⟨init_inv (fs := 48000) (ch := 1) rfl, rfl⟩) rfl
+    [0xF8, 2, 7, 7, 0xF8, 7, 7] (by decide) 7 960 (by decide) false 960 (by decide +kernel) (by decide)).1
 
 end OpusProps.EndToEndMs
